@@ -143,11 +143,8 @@ func (pConn *PFCPConn) handleSessionEstablishmentRequest(msg message.Message) (m
 		addQERs = append(addQERs, q)
 	}
 
-	session.MarkSessionQer(session.qers)
-	// FIXME: since PacketForwardingRules doesn't store pointers,
-	//  we must also mark session QERs in addQERs.
-	//  We need a kind of refactoring to clean it up.
-	session.MarkSessionQer(addQERs)
+	// marks the session QER in session.qers and in addQERs
+	session.MarkSessionQer(addQERs, addQERs)
 
 	// session.PacketForwardingRules stores all PFCP rules that has been installed so far,
 	// while 'updated' stores only the PFCP rules that have been provided in this particular message.
@@ -280,6 +277,9 @@ func (pConn *PFCPConn) handleSessionModificationRequest(msg message.Message) (me
 		addQERs = append(addQERs, q)
 	}
 
+	// the QERs created by this message come first in addQERs
+	createdQERs := len(addQERs)
+
 	for _, uPDR := range smreq.UpdatePDR {
 		var (
 			p   pdr
@@ -343,11 +343,8 @@ func (pConn *PFCPConn) handleSessionModificationRequest(msg message.Message) (me
 		addQERs = append(addQERs, q)
 	}
 
-	session.MarkSessionQer(session.qers)
-	// FIXME: since PacketForwardingRules doesn't store pointers,
-	//  we must also mark session QERs in addQERs.
-	//  We need a kind of refactoring to clean it up.
-	session.MarkSessionQer(addQERs)
+	// marks the session QER in session.qers and in addQERs
+	session.MarkSessionQer(addQERs[:createdQERs], addQERs)
 
 	updated := PacketForwardingRules{
 		pdrs: addPDRs,
